@@ -1,7 +1,7 @@
 From SL Require Import Tac.
 From SL Require Import PyInt.
 Import ListNotations.
-Open Scope N_scope.
+Local Open Scope N_scope.
 
 Definition all_digits (l : str) : bool := forallb is_digit l.
 
